@@ -481,6 +481,9 @@ func TestVerif_C06_Schedules(t *testing.T) {
 			}
 			if expectReset {
 				rec.Label("attempt:kept-after-reset")
+				if a.partial {
+					rec.Label("attempt:kept-after-reset(wal-left-in-place-again)")
+				}
 			}
 			attempts = append(attempts, a)
 			nf := c06SegFrames(seg.Bytes())
@@ -502,7 +505,7 @@ func TestVerif_C06_Schedules(t *testing.T) {
 			alsoCkpt := false
 			steer := "none"
 			if armed {
-				steer = rapid.SampledFrom([]string{"none", "none", "none", "release-write", "handover", "handover"}).Draw(rt, "armed-steer")
+				steer = rapid.SampledFrom([]string{"none", "none", "none", "release-write", "handover", "handover", "reset-rearm", "reset-rearm"}).Draw(rt, "armed-steer")
 			}
 			if steer == "release-write" {
 				// the WAL was left in place by the previous attempt: once every reader
@@ -512,6 +515,42 @@ func TestVerif_C06_Schedules(t *testing.T) {
 				}
 				note("stopall")
 				op = "write"
+			}
+			if steer == "reset-rearm" {
+				// the WAL was left in place (possibly a long generation): every reader leaves,
+				// a small write restarts the WAL, a new reader pins the end of the new, short
+				// generation, the attempt detects the reset and again leaves the WAL in place;
+				// then another small write is appended. The next kept attempt must resume at
+				// the end of the *new* generation, not at the old one's resume index.
+				for id := 0; id < 3; id++ {
+					e.stopReader(id)
+				}
+				ta := rapid.IntRange(0, len(tables)-1).Draw(rt, "rearm-table-a")
+				tb := (ta + 1 + rapid.IntRange(0, len(tables)-2).Draw(rt, "rearm-table-b")) % len(tables)
+				writes++
+				e.exec(true, c06Stmt("INSERT INTO "+tables[ta]+"(k,v) VALUES(?,?)", e.nextK, e.blob(12)))
+				e.nextK++
+				if raw, err := vsql.Open(e.path, "mode=ro"); err == nil {
+					var n int
+					_, err1 := raw.Exec("BEGIN")
+					err2 := raw.QueryRow("SELECT count(*) FROM t").Scan(&n)
+					if err1 != nil || err2 != nil {
+						raw.Close()
+					} else {
+						e.readers[0] = &c06Reader{kind: "raw", raw: raw}
+					}
+				}
+				note("rearm(stopall; ins %s; start0)", tables[ta])
+				rec.Label("steer:reset-then-wal-left-in-place-again")
+				attempt(false)
+				if violation != nil {
+					break
+				}
+				writes++
+				e.exec(true, c06Stmt("INSERT INTO "+tables[tb]+"(k,v) VALUES(?,?)", e.nextK, e.blob(12)))
+				e.nextK++
+				note("ins(%s,1,12)", tables[tb])
+				continue
 			}
 			if steer == "handover" && len(e.readers) > 0 && len(e.readers) < 3 {
 				// the WAL was left in place and a reader is still on it: a small write is
